@@ -48,7 +48,7 @@ class Sandbox(object):
                   os.path.join(r, 'x'), os.path.join(r, 'lib')):
             os.makedirs(d, exist_ok=True)
         body = b'v=1\n'
-        inside = ['foo/x.lua', 'foo/lib/x.lua', 'foo/lib/init.lua', 'foo/sub/x.lua', 'foo/x/init.lua', 'foo/lib.lua',
+        inside = ['foo/x.lua', 'foo/lib/x.lua', 'foo/lib/init.lua', 'foo/sub/x.lua', 'foo/sub/lib.lua', 'foo/x/init.lua', 'foo/lib.lua',
                   'libs/x.lua', 'libs/lib.lua']
         canaries = ['x.lua', 'init.lua', 'lib.lua', 'x/init.lua', 'lib/init.lua', 'lib/x.lua', 'foobar/x.lua',
                     'foobar/init.lua', 'foobar/lib.lua', 'abs/x.lua', 'abs/init.lua', 'x']
@@ -128,6 +128,8 @@ def location_class(sb, rp):
         return 'home-directory'
     if os.sep not in rel or rel.startswith('x' + os.sep) or rel.startswith('lib' + os.sep):
         return 'parent-directory'
+    if rel.startswith('foo' + os.sep):
+        return 'project-dir-outside-module-dir'
     return 'elsewhere'
 
 
@@ -186,6 +188,55 @@ def check_require(sb, p, lp, res):
             return
     res.outcome(('require', rcode == 0, err is not None))
     res.cover('require_outcomes', ('ok' if rcode == 0 else 'refused'))
+
+
+def check_require_nested(sb, p, lp, res):
+    """The require() sits in a module that lives in a subdirectory: its own directory is the permitted root."""
+    from pico8 import tool
+    res.evaluations += 1
+    main = os.path.join(sb.proj, 'main.lua')
+    out = os.path.join(sb.proj, 'out.p8')
+    mod = os.path.join(sb.proj, 'sub', 'a.lua')
+    if os.path.exists(out):
+        os.unlink(out)
+    open(main, 'wb').write(b'require("sub/a")\n')
+    open(mod, 'wb').write(b'require("' + p.encode() + b'")\n')
+    args = ['build', out, '--lua', main]
+    allowed = [os.path.join(sb.proj, 'sub')]
+    env_old = os.environ.pop('PICO8_LUA_PATH', None)
+    if lp == 'absolute':
+        args += ['--lua-path', sb.libs + '/?.lua;?.lua;?']
+        allowed.append(sb.libs)
+    elif lp == 'init':
+        args += ['--lua-path', '?;?.lua;?/init.lua']
+    case = {'kind': 'require-nested', 'p': p.replace(sb.root, '<SB>'), 'loadpath': lp}
+    res.nontriv(('nested', p, lp))
+    home_old = os.environ.get('HOME')
+    os.environ['HOME'] = sb.home
+    try:
+        with OpenTracer(sb) as tr:
+            try:
+                tool.main(args)
+            except BaseException:
+                pass
+    finally:
+        if env_old is not None:
+            os.environ['PICO8_LUA_PATH'] = env_old
+        if home_old is None:
+            os.environ.pop('HOME', None)
+        else:
+            os.environ['HOME'] = home_old
+        if os.path.exists(mod):
+            os.unlink(mod)
+    for rp, mode in tr.log:
+        if rp in (os.path.realpath(main), os.path.realpath(out), os.path.realpath(mod)):
+            continue
+        if not any(under(rp, a) for a in allowed):
+            res.violation('C12|require-nested|opened-outside|%s|loadpath=%s' % (location_class(sb, rp), lp),
+                          'require(%r) inside sub/a.lua (load path %s) opened %s, outside sub/ and the load path' % (
+                              p.replace(sb.root, '<SB>'), lp, os.path.relpath(rp, sb.root)), case)
+            return
+    res.outcome(('require-nested',))
 
 
 CART_LOCS = ['plain', 'cartsroot', 'carts2']
@@ -262,6 +313,9 @@ def run_shard(item):
             if 'carts2/' not in combo:
                 for lp in LOADPATHS:
                     check_require(sb, p, lp, res)
+                if p and len(combo) <= 2:
+                    for lp in ('default', 'init', 'absolute'):
+                        check_require_nested(sb, p, lp, res)
             # #include: the path must be one \S+ token
             if p and ' ' not in p:
                 for loc in CART_LOCS:
@@ -280,7 +334,9 @@ def replay(case):
     try:
         p = case['p']
         p = p.replace('<SB>', sb.root)
-        if case['kind'] == 'require':
+        if case['kind'] == 'require-nested':
+            check_require_nested(sb, p, case['loadpath'], res)
+        elif case['kind'] == 'require':
             check_require(sb, p, case['loadpath'], res)
         else:
             check_include(sb, p, case['loc'], res)
